@@ -396,9 +396,9 @@ to answer (bytes or a KMIP error).  `ValOk` = the attribute value has the kind i
 def WellTyped (c : Ctx) (e : Engine) (it : Item) : Prop :=
   match it.payload with
   | .create _ t => TemplateOk? c t ∧ it.crypto.FitsCreate c e.version t
-  | .createKeyPair cm pr pu => TemplateOk? c cm ∧ TemplateOk? c pr ∧ TemplateOk? c pu ∧ it.crypto.Pair
+  | .createKeyPair cm pr pu => TemplateOk? c cm ∧ TemplateOk? c pr ∧ TemplateOk? c pu ∧ it.crypto.IsPair
   | .register _ t _ => TemplateOk? c t
-  | .deriveKey _ us t _ _ => TemplateOk? c t ∧ us ≠ [] ∧ it.crypto.Bytes
+  | .deriveKey _ us t _ _ => TemplateOk? c t ∧ us ≠ [] ∧ it.crypto.IsBytes
   | .locate _ _ as => FiltersOk c as
   | .get _ _ _ w => w = none ∨ Crypto.Token it.crypto
   | .query fs => fs ≠ []
